@@ -113,8 +113,39 @@ fn b2s(b: bool) -> String {
     if b { "t".into() } else { "f".into() }
 }
 
+fn exec_builder(db: &SparqlDatabase, a: &str) -> Option<String> {
+    // QueryBuilder over the default graph with exact constants: `_` unbound, `k` the term t<k>, `u` a constant the
+    // dictionary has never seen (matches nothing)
+    let v: Vec<&str> = a.split(',').collect();
+    if v.len() != 3 {
+        return None;
+    }
+    let name = |x: &str| -> Option<Option<String>> {
+        match x {
+            "_" => Some(None),
+            "u" => Some(Some("never-encoded".to_string())),
+            k => k.parse::<u32>().ok().map(|k| Some(format!("t{}", k))),
+        }
+    };
+    let (sn, pn, on) = (name(v[0])?, name(v[1])?, name(v[2])?);
+    let mut qb = kolibrie::query_builder::QueryBuilder::new(db);
+    if let Some(x) = &sn {
+        qb = qb.with_subject(x);
+    }
+    if let Some(x) = &pn {
+        qb = qb.with_predicate(x);
+    }
+    if let Some(x) = &on {
+        qb = qb.with_object(x);
+    }
+    Some(ts(qb.get_triples().into_iter().collect()))
+}
+
 fn exec_tok(db: &mut SparqlDatabase, nt: u32, ng: u32, t: &str) -> Option<String> {
     let parts: Vec<&str> = t.split(':').collect();
+    if let ["B", a] = parts.as_slice() {
+        return exec_builder(db, a);
+    }
     let ix = &mut db.dataset_index;
     Some(match parts.as_slice() {
         ["i", q] => b2s(ix.insert_quad(&parse_quad(q)?)),
@@ -281,13 +312,23 @@ impl Prop for C04 {
 
     fn gen(&self, rng: &mut Rng, tier: Tier, _i: usize, stats: &mut Stats) -> String {
         let nt = rng.range(2, 6) as u32;
-        let ng = rng.range(1, 3) as u32;
+        let many = rng.chance(1, 12);
+        // catalogs beyond any small-catalog fast path (dozens of named graphs, most of them empty or nearly so)
+        let ng = if many { stats.hit("many_named_graphs"); rng.range(33, 48) as u32 } else { rng.range(1, 3) as u32 };
         let maxlen = if tier == Tier::Quick { 60 } else { 400 };
         let len = rng.range(1, maxlen);
         let mut toks: Vec<String> = Vec::new();
         let term = |r: &mut Rng| r.below(nt as usize) as u32;
-        let graph = |r: &mut Rng| r.below(ng as usize + 1) as u32;
+        // with many graphs half of the quads still go to the default graph (so that default and named data share terms)
+        let graph = |r: &mut Rng| if many && r.chance(1, 2) { 0 } else { r.below(ng as usize + 1) as u32 };
         let opt = |r: &mut Rng| if r.chance(1, 2) { "_".to_string() } else { (r.below(nt as usize)).to_string() };
+        if many {
+            for g in 1..=ng {
+                if rng.chance(9, 10) {
+                    toks.push(format!("c:{}", g));
+                }
+            }
+        }
         // a skewed universe makes repeated inserts/deletes of the same quad likely
         for _ in 0..len {
             let k = rng.below(100);
@@ -314,7 +355,11 @@ impl Prop for C04 {
                 "R".to_string()
             } else {
                 stats.hit("observer");
-                match rng.below(9) {
+                match rng.below(10) {
+                    9 => {
+                        let mut o3 = |r: &mut Rng| if r.chance(1, 6) { "u".to_string() } else { opt(r) };
+                        format!("B:{},{},{}", o3(rng), o3(rng), o3(rng))
+                    }
                     0 => format!("Q:{},{},{},{}", rng.below(ng as usize + 2), opt(rng), opt(rng), opt(rng)),
                     1 => format!("N:{},{},{}", opt(rng), opt(rng), opt(rng)),
                     2 => {
@@ -364,6 +409,15 @@ impl Prop for C04 {
             _ => return "bad-request".into(),
         };
         let mut db = SparqlDatabase::new();
+        // the string-level read path (QueryBuilder) needs names: term k is the string `t<k>`
+        {
+            let mut d = db.dictionary.write().unwrap();
+            for k in 0..nt.max(ng + 2) {
+                if d.encode(&format!("t{}", k)) != k {
+                    return "machinery:dictionary-ids-not-dense".into();
+                }
+            }
+        }
         let mut out = Vec::new();
         for t in &toks[3..] {
             match exec_tok(&mut db, nt, ng, t) {
